@@ -18,7 +18,7 @@ RULE = ('E1 exhaustive: every (type, value) of universe slices LEAF, BIG, REC(st
         '(1) native.decode(native.encode(obj), asn1Spec=T) has the same abstract content (REAL compared as floats, '
         'rel 1e-12); (2) for each of BER (definite; indefinite; maxChunkSize=2; indefinite+maxChunkSize=1), CER, DER: '
         'encode(plain Python tree, asn1Spec=T, **opts) == encode(value object, **opts), '
-        'OPTIONAL members absent from the mapping (types containing ANY excluded for this path); (3) the same for BER/CER/DER with the tree produced by the native encoder (types containing REAL excluded: floats round). Non-trivial = '
+        'OPTIONAL members absent from the mapping (types containing ANY excluded for this path); (3) the same for BER/CER/DER with the tree produced by the native encoder (types containing REAL excluded: floats round) and with the mapping keys written in reverse order. Non-trivial = '
         'constructed type or boundary value; distinct = digest of (T, v, clause, codec).')
 ASSUMPTIONS = [
     'the plain Python tree is built by mc.bind.pyasn1_bind.py_tree: dict for SEQUENCE/SET/CHOICE, list for '
@@ -29,6 +29,15 @@ ENCODERS = (('ber', ber_enc.encode, {}), ('cer', cer_enc.encode, {}), ('der', de
             ('ber/indef', ber_enc.encode, {'defMode': False}),
             ('ber/chunk2', ber_enc.encode, {'maxChunkSize': 2}),
             ('ber/indef+chunk1', ber_enc.encode, {'defMode': False, 'maxChunkSize': 1}))
+
+
+def reorder(tree):
+    """the same plain Python tree with every mapping's keys in reverse order (lists keep their order)"""
+    if isinstance(tree, dict):
+        return dict((k, reorder(tree[k])) for k in reversed(list(tree)))
+    if isinstance(tree, list):
+        return [reorder(x) for x in tree]
+    return tree
 
 
 def float_equal(T, a, b):
@@ -135,6 +144,10 @@ def check_case(idx, sl, T, v, R):
         return
     tree = B.py_tree(T, v)
     trees = [('pyvalue', tree)]
+    rtree = reorder(tree)
+    if repr(rtree) != repr(tree):
+        # the same mapping written with its keys in another order
+        trees.append(('pyvalue.reordered', rtree))
     if 'real' not in feats0:
         # the library's own idea of the plain Python tree (NULL is None there): the native encoder's output
         try:
@@ -148,7 +161,7 @@ def check_case(idx, sl, T, v, R):
             continue
         R.evaluations += 1
         R.nontrivial((T, M.freeze(v), clause, ename))
-        feats = feats0 | {'pyvalue', 'enc:' + ename} | ({'native_tree'} if clause != 'pyvalue' else set())
+        feats = feats0 | {'pyvalue', 'enc:' + ename} | ({'native_tree'} if clause == 'pyvalue.native_tree' else set())
         if has_absent_optional(T, v):
             feats.add('absent_optional')
         if absent_all_optional_record(T, v):
@@ -170,14 +183,14 @@ def check_case(idx, sl, T, v, R):
             continue
         if got != ref:
             v_py = v
-            if clause != 'pyvalue':
+            if clause == 'pyvalue.native_tree':
                 # the abstract value the native tree stands for (the native encoder materialises an absent
                 # all-optional record: recorded finding K11)
                 try:
                     v_py = B.abs_of(nat_dec.decode(tree, asn1Spec=spec), T, spec)
                 except Exception:
                     v_py = v
-            feats = feats | explain_paths(T, v, ename.split('/')[0], opts, ref, got, clause != 'pyvalue', v_py)
+            feats = feats | explain_paths(T, v, ename.split('/')[0], opts, ref, got, clause == 'pyvalue.native_tree', v_py)
             R.violation(clause + '.bytes', dict(rec, enc=ename, tree=repr(tree)), got[:60].hex() + ' for %r' % (tree,),
                         ref[:60].hex(), ename + '.encoder', feats, idx)
         else:
@@ -185,8 +198,8 @@ def check_case(idx, sl, T, v, R):
                 R.features[f] += 1
 
 
-OBJ_FLAGS = ('K1', 'K2', 'K3', 'K4', 'K11')
-PY_FLAGS = ('K1', 'K2', 'K3', 'K4', 'K9')
+OBJ_FLAGS = ('K1', 'K2', 'K4', 'K11')
+PY_FLAGS = ('K1', 'K2', 'K4', 'K9')
 
 
 def explain_paths(T, v, codec, opts, ref, got, native_tree=False, v_py=None):
